@@ -7,6 +7,12 @@
 // (`driver tmap`: sync.Map by its documented behaviour + the assertion forms gofacts finds in the
 // source). Type parameters: V in {int, error, any}, K in {int, any}, including stored nil interface
 // values and the nil interface key.
+//
+// Range's stop protocol: `rangestop n` drives Range with a callback whose i-th invocation (from 1)
+// answers i < n, i.e. it stops the iteration at its max(n,1)-th invocation; sync.Map's iteration
+// order is unspecified, so what is compared is order-independent: the NUMBER of invocations (the
+// real sync.Map driven by the same stop rule; the model), and that the visited pairs are distinct
+// entries of the map.
 package main
 
 import (
@@ -40,6 +46,8 @@ func (o Op) Line() string {
 		return "cas " + o.K + " " + o.O + " " + o.V
 	case "cad":
 		return "cad " + o.K + " " + o.O
+	case "rangestop":
+		return "rangestop " + o.K
 	}
 	return o.Name
 }
@@ -52,7 +60,7 @@ func parseLine(l string) Op {
 	}
 	o.Name = f[0]
 	switch o.Name {
-	case "load", "delete", "loadanddelete":
+	case "load", "delete", "loadanddelete", "rangestop":
 		if len(f) > 1 {
 			o.K = f[1]
 		}
@@ -180,6 +188,27 @@ func runTyped[K comparable, V any](ops []Op, ck conv[K], cv conv[V]) []string {
 					return true
 				})
 				r = showPairs(ps)
+			case "rangestop":
+				n, _ := strconv.Atoi(o.K)
+				calls := 0
+				var ks []K
+				var vs []V
+				m.Range(func(k K, v V) bool {
+					calls++
+					ks, vs = append(ks, k), append(vs, v)
+					return calls < n
+				})
+				r = "calls=" + strconv.Itoa(calls)
+				// the visited pairs are distinct entries of the map
+				seen := map[string]bool{}
+				for i := range ks {
+					cur, ok := m.Load(ks[i])
+					if seen[ck.show(ks[i])] || !ok || cv.show(cur) != cv.show(vs[i]) {
+						r += " visited-not-an-entry:" + ck.show(ks[i]) + ":" + cv.show(vs[i])
+						break
+					}
+					seen[ck.show(ks[i])] = true
+				}
 			default:
 				r = "bad-op"
 			}
@@ -244,6 +273,14 @@ func runSync[K comparable, V any](ops []Op, ck conv[K], cv conv[V]) []string {
 					return true
 				})
 				r = showPairs(ps)
+			case "rangestop":
+				n, _ := strconv.Atoi(o.K)
+				calls := 0
+				m.Range(func(k, v any) bool {
+					calls++
+					return calls < n
+				})
+				r = "calls=" + strconv.Itoa(calls)
 			default:
 				r = "bad-op"
 			}
@@ -314,7 +351,7 @@ func keyState(types string, ops []Op, idx int) string {
 		}
 	}
 	o := ops[idx]
-	if o.Name == "range" {
+	if o.Name == "range" || o.Name == "rangestop" {
 		for _, v := range cur {
 			if v == "nil" {
 				return "present-nil"
@@ -351,6 +388,21 @@ func monitor(types string, ops []Op) (kind, what string, params map[string]inter
 		map[string]interface{}{"k": kv[0], "v": kv[1], "key": keyState(types, ops, i)}
 }
 
+// modelDiff: first op on which implementation and model disagree. With a PANICKING assertion form
+// (pre-fix trees, mutants) whether a Range that stops early reaches the entry that panics depends on
+// sync.Map's unspecified iteration order, so a `rangestop` line on which either side panics is not
+// compared (the full `range` and the monitors cover the panic itself).
+func modelDiff(ops []Op, typed, model []string) int {
+	t := append([]string(nil), typed...)
+	mo := append([]string(nil), model...)
+	for i := range ops {
+		if ops[i].Name == "rangestop" && i < len(t) && i < len(mo) && (t[i] == "panic" || mo[i] == "panic") {
+			t[i], mo[i] = "-", "-"
+		}
+	}
+	return vlib.FirstDiff(t, mo)
+}
+
 func opLines(ops []Op) []string {
 	out := make([]string, len(ops))
 	for i, o := range ops {
@@ -380,16 +432,16 @@ func check(types string, ops []Op, m *vlib.Model, res *vlib.Result) {
 		return
 	}
 	res.Traces++
-	if i := vlib.FirstDiff(typed, mo[1:]); i >= 0 {
+	if i := modelDiff(ops, typed, mo[1:]); i >= 0 {
 		differs := func(c []Op) bool {
 			t, _ := run(types, c)
 			o, err := m.Run(modelLines(types, c))
-			return err == nil && vlib.FirstDiff(t, o[1:]) >= 0
+			return err == nil && modelDiff(c, t, o[1:]) >= 0
 		}
 		small := vlib.Shrink(ops, differs)
 		t, _ := run(types, small)
 		o, _ := m.Run(modelLines(types, small))
-		j := vlib.FirstDiff(t, o[1:])
+		j := modelDiff(small, t, o[1:])
 		what := fmt.Sprintf("%s op %d %q: impl %q, model %q", types, j, at(opLines(small), j), at(t, j), at(o[1:], j))
 		res.Fail(vlib.Failure{Source: "correspondence", Kind: "tmap-model-differs", What: what, Case: Case{Types: types, Ops: opLines(small)}})
 	}
@@ -432,9 +484,9 @@ func genCase(r *vlib.Rand, res *vlib.Result) (string, []Op) {
 		}
 	}
 	for len(ops) < n {
-		w := []int{6, 4, 2, 4, 4, 5, 3, 3, 3}
+		w := []int{6, 4, 2, 4, 4, 5, 3, 3, 3, 3}
 		if mode == 3 { // absent-key heavy: deletes dominate stores
-			w = []int{6, 1, 5, 5, 2, 5, 3, 3, 3}
+			w = []int{6, 1, 5, 5, 2, 5, 3, 3, 3, 2}
 		}
 		switch r.Pick(w...) {
 		case 0:
@@ -455,9 +507,51 @@ func genCase(r *vlib.Rand, res *vlib.Result) (string, []Op) {
 			ops = append(ops, Op{Name: "cad", K: key(), O: val()})
 		case 8:
 			ops = append(ops, Op{Name: "range"})
+		case 9:
+			ops = append(ops, Op{Name: "rangestop", K: strconv.Itoa(r.Range(0, 4))})
 		}
 	}
 	return types, ops
+}
+
+// stopCases: Range's stop protocol systematically — for every type combination, maps of every size
+// 0..4 (with and without stored nil interface values, with the nil key where K is an interface) and
+// a callback that stops at EVERY position: rangestop n for n = 0..size+1 (0 and 1: false at the
+// first invocation; size: false at the last; size+1: never false).
+func stopCases() (out []struct {
+	types string
+	ops   []Op
+}) {
+	for _, types := range typeCombos {
+		kv := strings.Split(types, "/")
+		for size := 0; size <= 4; size++ {
+			for _, nils := range []bool{false, true} {
+				if nils && kv[1] == "int" && kv[0] == "int" {
+					continue
+				}
+				var ops []Op
+				for i := 1; i <= size; i++ {
+					k, v := strconv.Itoa(i), strconv.Itoa(i)
+					if nils && kv[1] != "int" && i%2 == 0 {
+						v = "nil"
+					}
+					if nils && kv[0] == "any" && i == 1 {
+						k = "nil"
+					}
+					ops = append(ops, Op{Name: "store", K: k, V: v})
+				}
+				for n := 0; n <= size+1; n++ {
+					ops = append(ops, Op{Name: "rangestop", K: strconv.Itoa(n)})
+				}
+				ops = append(ops, Op{Name: "range"})
+				out = append(out, struct {
+					types string
+					ops   []Op
+				}{types, ops})
+			}
+		}
+	}
+	return out
 }
 
 func nontrivial(types string, ops []Op) bool {
@@ -493,7 +587,7 @@ func exhaustive(m *vlib.Model, res *vlib.Result, length int, deadline time.Time)
 				}
 			}
 		}
-		alpha = append(alpha, Op{Name: "range"})
+		alpha = append(alpha, Op{Name: "range"}, Op{Name: "rangestop", K: "1"}, Op{Name: "rangestop", K: "2"}, Op{Name: "rangestop", K: "3"})
 		idx := make([]int, length)
 		for {
 			if time.Now().After(deadline) {
@@ -525,9 +619,10 @@ func exhaustive(m *vlib.Model, res *vlib.Result, length int, deadline time.Time)
 
 func main() {
 	env := vlib.GetEnv()
-	res := vlib.NewResult("C18", "typed map: random op sequences (Load, Store, Delete, LoadAndDelete, LoadOrStore, Swap, CompareAndSwap, CompareAndDelete, Range) over 3 keys "+
+	res := vlib.NewResult("C18", "typed map: random op sequences (Load, Store, Delete, LoadAndDelete, LoadOrStore, Swap, CompareAndSwap, CompareAndDelete, Range, Range with a callback that stops at its n-th invocation) over 3 keys "+
 		"for (K,V) in {int,any} x {int,error,any} incl. stored nil interface values and the nil key, 4 modes (mixed, present-heavy, nil-heavy, absent-heavy); "+
-		"a case is non-trivial if it has >= 3 ops and applies operations to an absent and to a present key; distinct = different (types, op sequence). "+
+		"plus, systematically, maps of every size 0..4 with a Range callback stopping at every position 0..size+1 (count of invocations compared with sync.Map and the model; visited pairs must be distinct entries); "+
+		"a case is non-trivial if it has >= 3 ops and applies operations to an absent and to a present key (systematic Range cases: >= 4 ops); distinct = different (types, op sequence). "+
 		"thorough adds every sequence of length 3 over a reduced alphabet for all five type combinations")
 	m, err := vlib.StartModel(env.Driver, "tmap")
 	if err != nil {
@@ -554,7 +649,7 @@ func main() {
 		fmt.Printf("monitor: %s %s\n", k, what)
 		if m != nil {
 			if mo, err := m.Run(modelLines(c.Types, ops)); err == nil {
-				if i := vlib.FirstDiff(typed, mo[1:]); i >= 0 {
+				if i := modelDiff(ops, typed, mo[1:]); i >= 0 {
 					fmt.Printf("correspondence: op %d impl %q model %q\n", i, at(typed, i), at(mo[1:], i))
 				} else {
 					fmt.Println("correspondence: model and implementation agree")
@@ -580,6 +675,11 @@ func main() {
 		res.Count("corpus")
 		res.Case(types+"|"+strings.Join(opLines(ops), ";"), nontrivial(types, ops), nil)
 		check(types, ops, m, res)
+	}
+	for _, sc := range stopCases() {
+		res.Count("range-stop-systematic")
+		res.Case(sc.types+"|"+strings.Join(opLines(sc.ops), ";"), len(sc.ops) >= 4, nil)
+		check(sc.types, sc.ops, m, res)
 	}
 	r := vlib.NewRand(env.Seed)
 	deadline := time.Now().Add(time.Duration(env.BudgetMs) * time.Millisecond / 2)
